@@ -17,10 +17,20 @@ def run(tier, seed):
                'rows of txyz are modelled as a z3 sequence of opaque rows (slice = SubSeq, vstack = Concat)')
     pack.assume(*COMMON_ASSUME)
     pack.assume('time stamps handed to DAE.store are new (strictly increasing time axis: C06 run-loop invariant)',
-                'not decided: the npz / csv encoders, TDSData loaders, from_csv replay, pandas data frames')
+                'not decided by proof: the npz / csv encoders, TDSData loaders, from_csv replay, get_data and the pandas data frames (bounded native stand-ins only)')
     items = [(O.dae_store('C15', False),), (O.dae_store('C15', True),), (O.unpack_np('C15'),), (O.write_npz('C15'), None, O.replay_write_npz), (O.export_csv('C15'), None, O.replay_export_csv),
              (O.write_lst('C15'),), (O.to_output_addr('C15'), None, O.replay_to_output_addr)] + [(c,) for c in O.in1d('C15')] + \
             [(T.run('C15', drop=('success=>initialisation-test-not-failed',)),)]
     run_contracts(pack, items)
     O.bounded_loader_roundtrip(pack, 'C15')
+    from contracts.packutil import native_guard
+    from contracts import bounded_getdata as BG
+    name = 'C15/andes/variables/dae.py:DAETimeSeries.get_data;unpack_df/bounded:accessors-return-the-stored-columns-under-the-right-names'
+    r = native_guard(pack, name, BG.run)
+    if r is not None:
+        n, bad = r
+        pack.bounded.append({'function': 'DAETimeSeries.get_data / _access_array / unpack_df (after real runs, with and without an Output selection)',
+                             'checks': n, 'counted_as_proved': False, 'kind': 'bounded native: kundur_full, tf = 0.6 s'})
+        if bad:
+            pack.violation(name, {'bounded': True, 'inputs': bad, 'native_cmd': 'contracts/bounded_getdata.py'})
     return pack.finish()
